@@ -286,3 +286,54 @@ class _OwnEvents:
             and not a.recv_event.is_set() and not a.stop_event.is_set() \
             and not b.recv_event.is_set() and not b.stop_event.is_set() \
             and a.msg is m1 and b.msg is m2
+
+
+# ------------------------------------------------------------------ every connection worker has its own registry
+from pyvc.api import table                                            # noqa: E402
+
+
+@table("registry-per-worker", prop="C14")
+def registry_per_worker():
+    """Hop-by-Hop identifiers are per connection: two connection workers (two interfaces of one application)
+    may each have a request in flight under the SAME identifier.  The real Worker objects, built with a
+    thread-based stand-in for the multiprocessing manager, each keep their own registry: registering, looking
+    up and removing a waiter on one never shows on the other (a registry shared through the class would hand
+    one caller the other interface's answer and leave the overwritten caller asleep)."""
+    import queue
+    import threading
+    import types
+    from bromelia.constants import DIAMETER_APPLICATION_S6a, DIAMETER_APPLICATION_SWx
+
+    class Manager(object):
+        Event, Lock, Queue = staticmethod(threading.Event), staticmethod(threading.Lock), staticmethod(queue.Queue)
+
+    def app(app_id):
+        return types.SimpleNamespace(config={"APPLICATIONS": [{"app_id": app_id, "vendor_id": b"\x00\x00\x28\xaf"}]})
+
+    bad = []
+    try:
+        w1, w2 = BB.Worker(app(DIAMETER_APPLICATION_S6a), Manager()), BB.Worker(app(DIAMETER_APPLICATION_SWx), Manager())
+        h = B.DiameterHeader(hop_by_hop=b"\x00\x00\x00\x07", end_to_end=b"\x00\x00\x00\x01")
+        p1 = BB.PendingAnswer(B.DiameterRequest(header=h))
+        p2 = BB.PendingAnswer(B.DiameterRequest(header=h))
+        w1.insert_pending_answer(p1)
+        if w2.is_pending_answer(p2.msg):
+            bad.append("a waiter registered on worker 1 is visible on worker 2")
+        w2.insert_pending_answer(p2)
+        if w1.get_pending_answer(h.hop_by_hop) is not p1 or w2.get_pending_answer(h.hop_by_hop) is not p2:
+            bad.append("same Hop-by-Hop on two workers: one registration replaced the other")
+        p1.recv_event.set()                      # let remove_pending_answer's notify() return at once
+        p1.stop_event.set()
+        t = threading.Thread(target=w1.remove_pending_answer, args=(p1,), daemon=True)
+        t.start()
+        t.join(5)
+        if t.is_alive():
+            bad.append("remove_pending_answer did not return")
+        elif not w2.is_pending_answer(p2.msg) or w1.is_pending_answer(p1.msg):
+            bad.append("removing worker 1's waiter changed worker 2's registry (or left its own entry)")
+    except BaseException as e:  # noqa
+        bad.append("raised %s: %s" % (type(e).__name__, e))
+    return [("each-worker-has-its-own-registry", not bad, {"checked": 4, "failing": bad})]
+
+
+registry_per_worker.bounded = "two real Worker objects (thread-based manager stand-in), one shared Hop-by-Hop identifier; native"
